@@ -237,6 +237,15 @@ class C20(LineCheck):
             "I1 F1=/7:2:0: J1", "I1 F1=/-1:4000:0: J1", "I1 W1@1:3:100 F1=/3:2:0: J1", "I1 W1@1:3:100 S1=J1 F1=/3:2:0: I1 J1",
             "I1 W1@1:3:100 S1=J1,I1,J1 F1=/3:2:0:/3:2:0:", "I1 W1@1:3:100 S1=J1,I1 F1=/3:2:0:/3:2:0: J1",
             "I1 I2 I3 W1@2:1:1 S1=J1,J3,J2 F2=/1:1:1:/1:1:1: I1 J1", "I1 F1= J1", "I1 F1=x", "I1 F1=eex J1", "J1 U1 F1=/1:1:1: I1 J1",
+            # shrunk cases that killed the hand-made mutants of iv_inotify.c (handler before one-shot delete, advance by len
+            # only / by 16 only, reversed tree descent, one-shot / IN_IGNORED not dropped, no NULL check after the loop,
+            # unregister without tree delete, EINTR not retried, wrong wd to inotify_rm_watch, ->term left dangling)
+            "I1 W1@1:5:800003ff F1=/5:2:50:", "I1 F1=/1000:2:51:", "I1 W2@1:3:2 W1@1:1000:fff F1=/1000:2:50:",
+            "I1 W2@1:8:80000002 F1=/8:2:51:", "I1 W1@1:1000:fff S1@1=J1 F1=/1000:200:1:",
+            "I1 W1@1:2147483647:3ff W2@1:1:2 S2@1=U1 F1=/1:2:1:", "I1 W1@1:8:100 F1=e/8:8000:2:c331ebfbbe4aa3571cce472fc0bf2cb2e41ddd99",
+            "I1 W2@1:1000:100 F1=e/8:8000:2:c331ebfbbe4aa3571cce472fc0bf2cb2e41ddd99/1000:40000100:3:",
+            "I1 F1=e/1000:200:3:736576656e7465656e5f63686172735f78z15", "I1 W1@1:1:fff W2@1:8:fff S2@1=U1 F1=/8:8000:1:",
+            "I1 F1=/1000:2:51: J1",
         ]
 
     def big_cases(self, rng):
@@ -271,7 +280,7 @@ class C20(LineCheck):
         self.n_fresh = len(fresh)
         self.choice_count = {}
         n0 = len(cases)
-        reps = 1 if ctx.tier == "quick" else 6
+        reps = 1 if ctx.tier == "quick" else 10
         for _ in range(reps):
             for nw in (2, 3, 4):
                 for burst in (3, 5):
@@ -283,7 +292,7 @@ class C20(LineCheck):
                                 cases.append(self.systematic(rng, nw, burst, j, choice, variant))
                                 self.choice_count[choice] = self.choice_count.get(choice, 0) + 1
         self.n_sys = len(cases) - n0
-        nh = 500 if ctx.tier == "quick" else 12000
+        nh = 500 if ctx.tier == "quick" else 40000
         for _ in range(nh):
             cases.append(self.random_history(rng))
         self.n_hist = nh
@@ -319,7 +328,7 @@ class C20(LineCheck):
         feeds = [t for t in toks if t[0] == "F"]
         nev = [t.count("/") for t in feeds]
         acts_in_scripts = [a for t in toks if t[0] == "S" for a in t.split("=", 1)[1].split(",")]
-        return {"corpus_cases": self.n_corpus, "fresh_instance_shapes": self.n_fresh, "systematic_choice_cases": self.n_sys,
+        return {"corpus_cases": self.n_corpus, "fresh_instance_and_regression_shapes": self.n_fresh, "systematic_choice_cases": self.n_sys,
                 "systematic_by_choice": self.choice_count, "random_histories": self.n_hist, "size_boundary_cases": self.n_big,
                 "reads": len(feeds), "reads_with_ge2_events": sum(1 for n in nev if n >= 2), "events": sum(nev),
                 "reads_with_EINTR": sum(1 for t in feeds if "=e" in t), "reads_EAGAIN": sum(1 for t in feeds if re.search(r"=e*a", t)),
